@@ -9,7 +9,7 @@ Bob's back and replaced, while `bob archive -l scan | find | clean [--dry-run]
 
 Reference model (independent of bob.cmds.archive): evaluate every expression
 AST over the artifacts *actually present*, order by the sort key (missing key
-last), take LIMIT, union, close over references among present artifacts,
+last), take LIMIT, union, close over references (also through vanished artifacts),
 delete the rest.  Ties at the LIMIT boundary: any choice among equal keys is
 accepted.
 
@@ -297,15 +297,17 @@ def _listing(arch):
     return out
 
 def _closure(sel, present, arts):
-    kept = set(sel)
+    """Everything transitively referenced by a selected artifact -- also through artifacts
+    that are not in the archive (any more): a trail lists its complete reference closure."""
+    seen = set(sel)
     todo = list(sel)
     while todo:
         b = todo.pop()
         for d in arts[b]["deps"]:
-            if d in present and d not in kept:
-                kept.add(d)
+            if d not in seen:
+                seen.add(d)
                 todo.append(d)
-    return kept
+    return set(sel) | {d for d in seen if d in present}
 
 def run_case(case):
     top = common.scratch_dir("c19-%d" % os.getpid())
